@@ -178,10 +178,17 @@ func checkC06(e *Engine, r *Report) {
 				return fv != nil && fv.Name() == "From" && fv.Pkg() != nil && fv.Pkg().Path() == pkgEvmTypes
 			}) || s.HasCall(CallSpec{pkgEvmTypes, "MsgEthereumTx", "GetFrom"})
 		}
+		// the declared (attacker-chosen) side must not pass through a truncating conversion into a fixed-size type:
+		// comparing only the trailing 20 bytes lets a longer account address stand in for the signer
+		lossy := func(v ssa.Value) bool {
+			s := backSlice(v, SliceOpts{ThroughCallArgs: alwaysThrough})
+			return s.HasCall(CallSpec{GETH + "/common", "", "BytesToAddress"}, CallSpec{GETH + "/common", "", "HexToAddress"}, CallSpec{GETH + "/common", "", "BigToAddress"},
+				CallSpec{GETH + "/common", "Address", "SetBytes"}, CallSpec{GETH + "/common", "", "BytesToHash"})
+		}
 		fromSender := func(v ssa.Value) bool {
 			return backSlice(v, SliceOpts{ThroughCallArgs: alwaysThrough}).HasValue(sc)
 		}
-		gb := confirmFailEdge(fn, eqGuards(fn, true, func(v ssa.Value) bool { return fromField(v) && !fromSender(v) }, func(v ssa.Value) bool { return fromSender(v) && !fromField(v) }))
+		gb := confirmFailEdge(fn, eqGuards(fn, true, func(v ssa.Value) bool { return fromField(v) && !fromSender(v) && !lossy(v) }, func(v ssa.Value) bool { return fromSender(v) && !fromField(v) }))
 		gb = append(gb, confirmFailEdge(fn, boolCallGuards(fn, true, func(c *ssa.Call) bool {
 			// Equal/bytes.Equal style comparison
 			fo := calleeObj(c)
@@ -196,9 +203,9 @@ func checkC06(e *Engine, r *Report) {
 			if len(ops) != 2 {
 				return false
 			}
-			return (fromField(ops[0]) && fromSender(ops[1])) || (fromField(ops[1]) && fromSender(ops[0]))
+			return (fromField(ops[0]) && !lossy(ops[0]) && fromSender(ops[1])) || (fromField(ops[1]) && !lossy(ops[1]) && fromSender(ops[0]))
 		}))...)
-		r.Check(guardsNextOnEth(fn, gb, false), name+" › From == recovered sender", e.Pos(sc.Pos()), "next() only on the equal edge of msg.From vs recovered sender", "next() is reachable on the Ethereum lane without msg.From having been compared (equal) with the recovered sender: anyone can act for a declared sender")
+		r.Check(guardsNextOnEth(fn, gb, false), name+" › From == recovered sender", e.Pos(sc.Pos()), "next() only on the equal edge of msg.From vs recovered sender", "next() is reachable on the Ethereum lane without the full declared msg.From having been compared (equal) with the recovered sender (a comparison through a truncating conversion such as common.BytesToAddress does not count): someone else can act for a declared sender")
 		// (c) nonce equality
 		isNonce := func(v ssa.Value) bool {
 			c, _ := callOf(v)
